@@ -105,6 +105,17 @@ print(json.dumps({'zonedbpy': {n: hash_name(n) for n in names}, 'keys': sorted(z
                 else:
                     chk.violation('%s:%s:compiler' % (sname, scope), 'compiler failed: %s' % (err,), {})
                 continue
+            # the generated Python tables: the record filed under a name is the record of that name, one per emitted zone
+            rcp, op_, ep_, _ = common.run_cmd([common.PY, '-c', 'import sys, os, json, importlib; d = sys.argv[1]; open(os.path.join(d, "__init__.py"), "a").close(); sys.path.insert(0, os.path.dirname(d)); z = importlib.import_module(os.path.basename(d) + ".zone_infos"); print(json.dumps({k: v["name"] for k, v in z.ZONE_INFO_MAP.items()}))', os.path.join(out, 'python')], env=compiler.tool_env(), timeout=120)
+            if rcp != 0:
+                chk.violation('%s:%s:python-tables-do-not-load' % (sname, scope), 'generated Python tables do not import: %s' % ep_[-500:], {})
+            else:
+                pm_ = json.loads(op_)
+                for k_, nme_ in sorted(pm_.items()):
+                    if k_ != nme_:
+                        chk.violation('%s:%s:python:%s:wrong-record' % (sname, scope, k_), 'ZONE_INFO_MAP[%r] of the generated Python tables holds the record of %r' % (k_, nme_), {'key': k_, 'record': nme_})
+                if sorted(pm_) != sorted(res['emitted_zones']):
+                    chk.violation('%s:%s:python:zone-set' % (sname, scope), 'generated ZONE_INFO_MAP has %d zones, the compiler emitted %d (only in one: %s)' % (len(pm_), len(res['emitted_zones']), sorted(set(pm_) ^ set(res['emitted_zones']))[:6]), {})
             zones, links, kids = header_info(os.path.join(out, 'arduino', 'zone_infos.h'))
             cpp = open(os.path.join(out, 'arduino', 'zone_infos.cpp')).read()
             zid = dict((m.group(1), int(m.group(2), 16)) for m in re.finditer(r'const \w+::ZoneInfo (kZone\w+) ACE_TIME_PROGMEM = \{\s*\w+ /\*name\*/,\s*(0x[0-9a-f]+) /\*zoneId\*/', cpp))
